@@ -1471,7 +1471,9 @@ class FortranReaderBase:
                         )
             if self._format.is_fixed:  # Check for switched to free format
                 # check for label
-                s = line[:5].strip().lower()
+                # Blanks are not significant in fixed format so a label
+                # may contain them (e.g. ' 1 0 ' is the label 10).
+                s = line[:5].replace(" ", "")
                 if s:
                     label = int(s)
                 if not self._format.is_f77:
